@@ -1,0 +1,11 @@
+//go:build !verif
+
+package badger
+
+import "github.com/dgraph-io/badger/v4/table"
+
+// Verification hooks are compiled out without the `verif` build tag.
+
+func verifPoint(string, ...uint64)               {}
+func verifCompactDef(*compactDef)                {}
+func verifNewTables(*compactDef, []*table.Table) {}
